@@ -234,21 +234,9 @@ def run(rep: Report, tier: str) -> None:
 		rb.skip('embedded-form', oe.where, 'on_entrypoint no longer passes a `meta_header` template variable in a dict literal')
 	for v in mhv:
 		rb.check(isinstance(v, ast.Call) and unparse(v.func).endswith('.to_header_str') and attr_chain(v.func.value.func if isinstance(v.func.value, ast.Call) else v.func.value) == 'MetaHeader', 'embedded-form', oe.where, f'on_entrypoint must pass MetaHeader(...).to_header_str() to the template: `{unparse(v)[:120]}`')
-	# regenerate when the old header is missing or differs
-	neq = [n for n in nodes(ctx, ast.Compare) if len(n.ops) == 1 and isinstance(n.ops[0], (ast.NotEq, ast.Eq)) and {has_call(n.left, 'try_load_meta_header'), has_call(n.comparators[0], 'try_load_meta_header')} == {True, False} and (attr_chain(n.left.func if isinstance(n.left, ast.Call) else n.left) == 'MetaHeader' or attr_chain(n.comparators[0].func if isinstance(n.comparators[0], ast.Call) else n.comparators[0]) == 'MetaHeader')]
-	if not neq:
-		rb.skip('compare', ct.where, 'can_transpile no longer compares MetaHeader(...) with the loaded header')
-	else:
-		pm_ = parent_map(ctx)
-		c0 = neq[0]
-		par = pm_.get(id(c0))
-		negated = isinstance(par, ast.UnaryOp) and isinstance(par.op, ast.Not)
-		differs = isinstance(c0.ops[0], ast.NotEq) != negated
-		returned = isinstance(pm_.get(id(par if negated else c0)), ast.Return)
-		if returned:
-			rb.check(differs, 'compare', ct.where, f'can_transpile must answer True when the regenerated header differs from the old one: returns `{unparse(par if negated else c0)[:120]}`')
-		else:
-			rb.skip('compare', ct.where, 'the header comparison is no longer returned directly')
+	# regenerate when the old header is missing or differs: can_transpile is evaluated as a boolean function of M (an old header was loaded),
+	# D (the regenerated header differs from it) and whatever other conditions it consults (free)
+	rule_decision(rb, ct)
 
 	# ---- (c) read path == write path -----------------------------------------------------------------------------------------
 	rule_paths(rep, idx)
@@ -356,3 +344,104 @@ def rule_paths(rep: Report, idx: SourceIndex) -> None:
 			r.violate(key, (TRANSPILE, ret.lineno), f'`{src}` is not injective on file paths ({p.func.attr} affects every occurrence / a character set, not just the matched leading prefix): two modules such as src/lib/util.py and src/lib/src/util.py map to one output file, and forced vs non-forced runs then diverge', src)
 		else:
 			r.skip(key, (TRANSPILE, ret.lineno), f'cannot classify the path transformation `{src}`')
+
+
+def rule_decision(rb, ct) -> None:
+	"""can_transpile(M, D, others): for every valuation, M false -> True (no recorded header: regenerate) and M true, D true -> True (header differs:
+	regenerate); M true, D false -> False for some valuation (otherwise nothing is ever left untouched). Comparing with an absent header is not an
+	answer (MetaHeader.__eq__ refuses other types)."""
+	import itertools
+	loaded: set[str] = set()
+	for n in ast.walk(ct.node):
+		tgt = n.targets[0] if isinstance(n, ast.Assign) and len(n.targets) == 1 else n.target if isinstance(n, ast.AnnAssign) else None
+		if isinstance(tgt, ast.Name) and n.value is not None and has_call(n.value, 'try_load_meta_header'):
+			loaded.add(tgt.id)
+	fi = FI(ct)
+
+	def is_loaded(e: ast.AST) -> bool:
+		return (isinstance(e, ast.Name) and e.id in loaded) or (isinstance(e, ast.Call) and unparse(e.func).endswith('try_load_meta_header'))
+
+	class Unsupported(Exception):
+		pass
+	others: list[str] = []
+
+	def ev(e: ast.AST, val: dict):
+		"""True / False / 'raise'"""
+		if isinstance(e, ast.Constant) and isinstance(e.value, bool):
+			return e.value
+		if isinstance(e, ast.UnaryOp) and isinstance(e.op, ast.Not):
+			v = ev(e.operand, val)
+			return v if v == 'raise' else (not v)
+		if isinstance(e, ast.BoolOp):
+			isand = isinstance(e.op, ast.And)
+			for x in e.values:
+				v = ev(x, val)
+				if v == 'raise':
+					return v
+				if v != isand:
+					return v
+			return isand
+		if isinstance(e, ast.IfExp):
+			t = ev(e.test, val)
+			return t if t == 'raise' else ev(e.body if t else e.orelse, val)
+		if is_loaded(e):
+			return val['M']
+		if isinstance(e, ast.Compare) and len(e.ops) == 1:
+			l, r_, op = e.left, e.comparators[0], e.ops[0]
+			if isinstance(op, (ast.Is, ast.IsNot)) and ((is_loaded(l) and isinstance(r_, ast.Constant) and r_.value is None) or (is_loaded(r_) and isinstance(l, ast.Constant) and l.value is None)):
+				return val['M'] == isinstance(op, ast.IsNot)
+			if isinstance(op, (ast.Eq, ast.NotEq)) and (is_loaded(l) or is_loaded(r_)):
+				other = r_ if is_loaded(l) else l
+				if isinstance(other, ast.Constant) and other.value is None:
+					return val['M'] == isinstance(op, ast.NotEq)
+				if not val['M']:
+					return 'raise'  # MetaHeader.__eq__ with None
+				return val['D'] == isinstance(op, ast.NotEq)
+		key = unparse(e)
+		if key not in others:
+			others.append(key)
+		return val.get(key, False)
+
+	def run(stmts: list[ast.stmt], val: dict):
+		for st in stmts:
+			if isinstance(st, ast.Return):
+				return ev(st.value, val) if st.value is not None else False
+			if isinstance(st, ast.If):
+				t = ev(st.test, val)
+				if t == 'raise':
+					return t
+				out = run(st.body if t else st.orelse, val)
+				if out is not None:
+					return out
+			elif isinstance(st, (ast.Assign, ast.AnnAssign, ast.Expr, ast.Pass)):
+				continue
+			elif isinstance(st, ast.Raise):
+				return 'raise'
+			else:
+				raise Unsupported(type(st).__name__)
+		return None
+	try:
+		run(fi.body, {'M': False, 'D': False})  # discovers the free conditions
+		run(fi.body, {'M': True, 'D': True})
+		run(fi.body, {'M': True, 'D': False})
+		if len(others) > 4:
+			raise Unsupported(f'{len(others)} free conditions')
+		table = {}
+		for m_, d_ in ((False, False), (False, True), (True, True), (True, False)):
+			for bits in itertools.product((False, True), repeat=len(others)):
+				val = {'M': m_, 'D': d_, **dict(zip(others, bits))}
+				table[(m_, d_, bits)] = run(fi.body, val)
+	except Unsupported as e:
+		rb.skip('decision', ct.where, f'can_transpile is no longer a straight-line decision over if/return ({e})')
+		return
+	if not loaded and not any(is_loaded(n) for n in ast.walk(fi)):
+		rb.skip('decision', ct.where, 'can_transpile no longer loads the old header with try_load_meta_header')
+		return
+	def show(bits):
+		return ', '.join(f'{k}={b}' for k, b in zip(others, bits)) or '-'
+	bad_missing = [(k, v) for k, v in table.items() if not k[0] and v is not True]
+	never_skips = not any(k[0] and not k[1] and v is False for k, v in table.items())
+	rb.check(not bad_missing, 'decision:missing-header-regenerates', ct.where, f'can_transpile answers {bad_missing[0][1] if bad_missing else ""} when no header can be read from the existing output (other conditions: {show(bad_missing[0][0][2]) if bad_missing else ""}): an output without a readable header (hand-written, truncated, produced by a template without the meta line) is never regenerated by a non-forced run, while a forced run rewrites it', unparse(fi)[:200])
+	bad_differs = [(k, v) for k, v in table.items() if k[0] and k[1] and v is not True]
+	rb.check(not bad_differs, 'compare', ct.where, f'can_transpile must answer True when the regenerated header differs from the old one: answers {bad_differs[0][1] if bad_differs else ""} (other conditions: {show(bad_differs[0][0][2]) if bad_differs else ""})')
+	rb.check(not never_skips, 'decision:unchanged-left-untouched', ct.where, 'can_transpile never answers False for a module whose recorded header equals the regenerated one: every run rewrites every output')
